@@ -41,8 +41,16 @@ import (
 // ---------- histories (the replay format) ----------
 
 type treeSpec struct {
-	Par   []int    `json:"par"`   // Par[i] = parent of block i (i >= 1), Par[0] = -1 (genesis)
-	Dbits []uint32 `json:"dbits"` // Difficulty bits of block i (Dbits[0] unused)
+	Par   []int    `json:"par"`           // Par[i] = parent of block i (i >= 1), Par[0] = -1 (genesis)
+	Dbits []uint32 `json:"dbits"`         // Difficulty bits of block i (Dbits[0] unused)
+	Ntx   []int    `json:"ntx,omitempty"` // Ntx[i] = number of `none` transactions of block i beside its coins transfer (nil: none)
+}
+
+func (t treeSpec) ntx(i int) int {
+	if i < len(t.Ntx) {
+		return t.Ntx[i]
+	}
+	return 0
 }
 
 type caseIn struct {
@@ -133,14 +141,17 @@ func (f *factory) build(t treeSpec, order []int, kind string) *hist {
 	for i := 1; i < len(t.Par); i++ {
 		parent := blocks[t.Par[i]]
 		to, _ := util.Genaddress()
-		tx := util.CreateCoinsTx(f.cfg, f.node.GetGenesisKey(), to, int64(1000+i))
-		b := util.CreateNewBlock(f.cfg, parent, []*types.Transaction{tx})
+		txs := []*types.Transaction{util.CreateCoinsTx(f.cfg, f.node.GetGenesisKey(), to, int64(1000+i))}
+		// a BIG block: many cheap transactions, so that the local (tx index) KVs of the block
+		// are more than 1 MiB
+		txs = append(txs, util.GenNoneTxs(f.cfg, f.node.GetGenesisKey(), int64(t.ntx(i)))...)
+		b := util.CreateNewBlock(f.cfg, parent, txs)
 		b.Difficulty = t.Dbits[i]
 		d, _, err := util.ExecBlock(f.node.GetClient(), parent.StateHash, b, false, true, false)
 		if err != nil {
 			panic(fmt.Sprintf("factory: exec block %d: %v", i, err))
 		}
-		if len(d.Block.Txs) != 1 {
+		if len(d.Block.Txs) != len(txs) {
 			panic("factory: transaction dropped")
 		}
 		blocks[i] = d.Block
@@ -310,6 +321,15 @@ func (h *hist) classify(r traceRec) []fact {
 	type rows struct{ bodyD, bodyM, rcptD, rcptM, hdrD, hdrM bool }
 	blk := map[int]*rows{}
 	var blkOrder []int
+	// tx index records per block: FTx is "the index records of ALL transactions of the block"
+	type txAgg struct {
+		seen        map[string]bool
+		set, del    int
+		height      int64
+		bad, hasSet bool
+	}
+	txs := map[int]*txAgg{}
+	var txOrder []int
 	getRows := func(id int) *rows {
 		if blk[id] == nil {
 			blk[id] = &rows{}
@@ -441,17 +461,44 @@ func (h *hist) classify(r traceRec) []fact {
 				out = append(out, other)
 				break
 			}
+			a := txs[id]
+			if a == nil {
+				a = &txAgg{seen: map[string]bool{}}
+				txs[id] = a
+				txOrder = append(txOrder, id)
+			}
+			if a.seen[ks] {
+				a.bad = true
+			}
+			a.seen[ks] = true
 			if kv.Del {
-				out = append(out, fact{1, hlib.App("FTx", hlib.N(uint64(id)), "None")})
+				a.del++
 				break
 			}
 			var tr types.TxResult
 			if kv.Len != len(v) || types.Decode(v, &tr) != nil {
-				out = append(out, other)
+				a.bad = true
 				break
 			}
-			out = append(out, fact{1, hlib.App("FTx", hlib.N(uint64(id)), hlib.Opt(true, hlib.Z(tr.Height)))})
+			if a.hasSet && a.height != tr.Height {
+				a.bad = true
+			}
+			a.set++
+			a.hasSet, a.height = true, tr.Height
 		default:
+			out = append(out, other)
+		}
+	}
+	for _, id := range txOrder {
+		a := txs[id]
+		n := len(h.blocks[id].Txs)
+		switch {
+		case !a.bad && a.set == n && a.del == 0:
+			out = append(out, fact{1, hlib.App("FTx", hlib.N(uint64(id)), hlib.Opt(true, hlib.Z(a.height)))})
+		case !a.bad && a.del == n && a.set == 0:
+			out = append(out, fact{1, hlib.App("FTx", hlib.N(uint64(id)), "None")})
+		default:
+			// the index records of only a part of the block's transactions: not a write of the model
 			out = append(out, other)
 		}
 	}
@@ -543,7 +590,8 @@ func renderObs(h *hist, o *obs) string {
 		load = append(load, hlib.Bool(v))
 	}
 	for _, v := range o.Tx {
-		tx = append(tx, hlib.Opt(v >= 0, hlib.Z(v)))
+		// -1 = no index record; txMixed (-2) = the block's transactions disagree: Some (-2)
+		tx = append(tx, hlib.Opt(v != -1, hlib.Z(v)))
 	}
 	for _, v := range o.Td {
 		if v == "" {
@@ -711,6 +759,112 @@ func (h *hist) runPoint(base string, fr *fullRun, k int, mode string, fin int64)
 	return result{in: in, out: out, coq: coq, kind: h.kind + "/" + mode + "-" + next, nt: next != "end"}
 }
 
+type pt struct {
+	k    int
+	mode string
+}
+
+// firstUnit: index (0-based) of the first write at or after from whose rendering starts with
+// prefix; -1 = none
+func (fr *fullRun) firstUnit(from int, prefix string) int {
+	for i := from; i < len(fr.units); i++ {
+		if i >= 0 && strings.HasPrefix(fr.units[i], prefix) {
+			return i
+		}
+	}
+	return -1
+}
+
+// lastUnit: index of the last write whose rendering starts with prefix; -1 = none
+func (fr *fullRun) lastUnit(prefix string) int {
+	for i := len(fr.units) - 1; i >= 0; i-- {
+		if strings.HasPrefix(fr.units[i], prefix) {
+			return i
+		}
+	}
+	return -1
+}
+
+// batchBytes: the size goleveldb's Batch.ValueSize reports for the write (keys + values of
+// the sets, keys of the deletions)
+func batchBytes(r traceRec) int {
+	n := 0
+	for _, kv := range r.KV {
+		n += len(kv.K)/2 + kv.Len
+	}
+	return n
+}
+
+// needBig: the writes lo..hi-1 (0-based) of the uninterrupted run hold more than 1 MiB + 10%
+// in the blockchain database - otherwise the history is not of the input class it is meant for
+func (fr *fullRun) needBig(what string, lo, hi int) {
+	n := 0
+	for i := lo; i < hi && i < len(fr.trace); i++ {
+		if fr.trace[i].DB == "blockchain" {
+			n += batchBytes(fr.trace[i])
+		}
+	}
+	if os.Getenv("VERIF_C29_DEBUG") != "" {
+		fmt.Fprintf(os.Stderr, "hC29: %s: %d bytes in writes %d..%d\n", what, n, lo+1, hi)
+	}
+	if n < (1<<20)*11/10 {
+		panic(fmt.Sprintf("hC29: %s: only %d bytes of chain records, not a BIG block", what, n))
+	}
+}
+
+// selBigConnect: every boundary from the write that stores block big to the end of the history
+// (its block rows, its state commit, every write of its connect, the next block), each write
+// up to the state commit of the NEXT block also in after mode.  The window is found from the
+// writes the node really made, so a connect that takes more than one write gets a crash point
+// between any two of them.
+func selBigConnect(big int, all bool) func(fr *fullRun) []pt {
+	return func(fr *fullRun) []pt {
+		n := len(fr.trace)
+		lo := fr.firstUnit(0, fmt.Sprintf("(ub %d%%N ", big))
+		if lo < 0 || all {
+			lo = 0
+		}
+		hi := fr.firstUnit(lo, fmt.Sprintf("(ub %d%%N ", big+1))
+		if hi < 0 {
+			hi = n - 1
+		}
+		// the connect writes of the big block: after its state commit, before the next store
+		if sc := fr.firstUnit(lo, "(us "); sc >= 0 {
+			fr.needBig("connect of the big block", sc+1, hi)
+		}
+		var pts []pt
+		for k := lo + 1; k <= n; k++ {
+			pts = append(pts, pt{k, "before"})
+			if k-1 >= lo && k-1 < hi {
+				pts = append(pts, pt{k, "after"})
+			}
+		}
+		return pts
+	}
+}
+
+// selBigDisconnect: the reorganisation that detaches the big block: every boundary after the
+// last block-store write (the branch block that triggers the reorganisation) up to the first
+// state commit that follows (the first connect of the branch) - the disconnect writes, each also
+// in after mode.
+func selBigDisconnect(fr *fullRun) []pt {
+	n := len(fr.trace)
+	lo := fr.lastUnit("(ub ") + 1
+	hi := fr.firstUnit(lo, "(us ")
+	if hi < 0 {
+		hi = n - 1
+	}
+	fr.needBig("disconnect of the big block", lo, hi)
+	var pts []pt
+	for k := lo + 1; k <= hi+1 && k <= n; k++ {
+		pts = append(pts, pt{k, "before"})
+		if k-1 < hi {
+			pts = append(pts, pt{k, "after"})
+		}
+	}
+	return pts
+}
+
 // ---------- generators ----------
 
 func linearTree(n int) treeSpec {
@@ -827,9 +981,22 @@ func main() {
 	f := newFactory()
 	quiet()
 	start := time.Now()
-	base := filepath.Join(opts.OutDir, "c29run")
-	os.RemoveAll(base)
-	os.MkdirAll(base, 0o755)
+	// data directories of the children: on tmpfs when there is one (LevelDB syncs are the
+	// bulk of a child's system time); the injected fault is process termination, which a
+	// memory-backed file system survives like a disk does
+	if old, _ := filepath.Glob("/dev/shm/hC29-*"); len(old) > 0 {
+		for _, d := range old { // left behind by a killed run
+			if st, err := os.Stat(d); err == nil && time.Since(st.ModTime()) > 6*time.Hour {
+				os.RemoveAll(d)
+			}
+		}
+	}
+	base, err := os.MkdirTemp("/dev/shm", "hC29-")
+	if err != nil {
+		base = filepath.Join(opts.OutDir, "c29run")
+		os.RemoveAll(base)
+		os.MkdirAll(base, 0o755)
+	}
 	defer os.RemoveAll(base)
 	const fin = 0
 
@@ -839,9 +1006,9 @@ func main() {
 			o.Emit(r.kind, r.nt, r.coq, r.in, r.out)
 		}
 	}
-	// runHistory: the uninterrupted run, then the crash points lo..N (before mode) + the
-	// end point + a few after-mode points
-	runHistory := func(hi int, h *hist, tail int, afterEvery int) {
+	// runPoints: the uninterrupted run, then the crash points sel chooses from its trace + the
+	// end point
+	runPoints := func(hi int, h *hist, sel func(fr *fullRun) []pt) {
 		hb := filepath.Join(base, fmt.Sprintf("h%d", hi))
 		fr := h.runFull(hb)
 		if fr.obs == nil {
@@ -851,22 +1018,7 @@ func main() {
 			emit([]result{r})
 			return
 		}
-		n := len(fr.trace)
-		lo := 1
-		if tail > 0 && n-tail+1 > lo {
-			lo = n - tail + 1
-		}
-		type pt struct {
-			k    int
-			mode string
-		}
-		var pts []pt
-		for k := lo; k <= n; k++ {
-			pts = append(pts, pt{k, "before"})
-			if afterEvery > 0 && (k-lo)%afterEvery == afterEvery-1 {
-				pts = append(pts, pt{k, "after"})
-			}
-		}
+		pts := sel(fr)
 		res := make([]result, len(pts))
 		var wg sync.WaitGroup
 		sem := make(chan struct{}, workers)
@@ -883,6 +1035,24 @@ func main() {
 		emit(res)
 		emit([]result{h.runPoint(hb, fr, 0, "before", fin)})
 		os.RemoveAll(hb)
+	}
+	// runHistory: the crash points lo..N (before mode) + a few after-mode points
+	runHistory := func(hi int, h *hist, tail int, afterEvery int) {
+		runPoints(hi, h, func(fr *fullRun) []pt {
+			n := len(fr.trace)
+			lo := 1
+			if tail > 0 && n-tail+1 > lo {
+				lo = n - tail + 1
+			}
+			var pts []pt
+			for k := lo; k <= n; k++ {
+				pts = append(pts, pt{k, "before"})
+				if afterEvery > 0 && (k-lo)%afterEvery == afterEvery-1 {
+					pts = append(pts, pt{k, "after"})
+				}
+			}
+			return pts
+		})
 	}
 
 	if opts.Replay != "" {
@@ -903,8 +1073,21 @@ func main() {
 
 	r := hlib.NewRng(opts.Seed)
 	hi := 0
+	// development aid: VERIF_C29_ONLY=kind[,kind] runs only those history kinds
+	want := func(kind string) bool {
+		only := os.Getenv("VERIF_C29_ONLY")
+		if only == "" {
+			return true
+		}
+		for _, k := range strings.Split(only, ",") {
+			if k == kind {
+				return true
+			}
+		}
+		return false
+	}
 	// 1. a node's first blocks: every boundary from the very first write (flags, genesis)
-	{
+	if want("genesis-linear") {
 		n := 2
 		if opts.Thorough() {
 			n = 4
@@ -915,7 +1098,7 @@ func main() {
 	}
 	// 2. reorganisation above the margin: trunk 13, branch of 3 from height 11; the boundaries of
 	// the last two trunk blocks, the branch and the reorganisation
-	{
+	if want("reorg-2-3") {
 		t := reorgTree(13, 11, 3, diffChoices[0])
 		tail := 14
 		if opts.Thorough() {
@@ -924,10 +1107,37 @@ func main() {
 		runHistory(hi, f.build(t, seqOrder(len(t.Par)), "reorg-2-3"), tail, 6)
 		hi++
 	}
-	// 3. random guarded histories
+	// 3. BIG blocks: the local KVs (tx index, address index) of the block are more than 1 MiB
+	// (bigTxs transactions), the write sizes of neighbouring code (reduce.go, prune.go) flush at.
+	// 3a. linear: block 1 small, block 2 big, block 3 small; the boundaries of every write from
+	// the big block's store on
+	// (a disconnect batch holds only the keys of the index records: more transactions)
+	bigTxs, bigDelTxs := 1500, 2800
+	if v, err := strconv.Atoi(os.Getenv("VERIF_C29_BIGTXS")); err == nil && v > 0 {
+		bigTxs, bigDelTxs = v, v
+	}
+	if want("big-linear") {
+		t := linearTree(3)
+		t.Ntx = []int{0, 0, bigTxs, 0}
+		runPoints(hi, f.build(t, seqOrder(len(t.Par)), "big-linear"), selBigConnect(2, opts.Thorough()))
+		hi++
+	}
+	// 3b. the big block is the trunk's tip and is detached by a reorganisation (trunk 13, branch
+	// of 3 from height 11): the boundaries of the disconnect writes
+	if want("big-reorg") {
+		t := reorgTree(13, 11, 3, diffChoices[0])
+		t.Ntx = make([]int, len(t.Par))
+		t.Ntx[13] = bigDelTxs
+		runPoints(hi, f.build(t, seqOrder(len(t.Par)), "big-reorg"), selBigDisconnect)
+		hi++
+	}
+	// 4. random guarded histories
 	nRandom, tail, budget := 1, 12, 240*time.Second
 	if opts.Thorough() {
 		nRandom, tail, budget = 38, 0, 45*time.Minute
+	}
+	if !want("random") {
+		nRandom = 0
 	}
 	for i := 0; i < nRandom; i++ {
 		if time.Since(start) > budget {
